@@ -330,6 +330,17 @@ def faults(model, cfg, facts):
         m, c = mod()
         c['fac'] = raw
         yield f'origin-invalid:{raw[4:]}', m, c
+    # --- SIZE (valid): the whole model 12 / 24 / 40 namespace levels deeper (one identifier per level)
+    for depth in (12, 24, 40):
+        m, c = mod()
+        levels = [f'L{i}' for i in range(depth)]
+        doc = m['doc']
+        for ident in reversed(levels):
+            doc = [['ns', [ident], doc]]
+        m['doc'] = doc
+        m['encapsulee'] = levels + list(m['encapsulee'])
+        if reference_validity(m, c) == ('VALID',):
+            yield f'nested-{depth}-levels-deeper', m, c
     # --- file names / suffix
     for name, fname, suffix in (('file-empty', '', 'Shell'), ('suffix-empty', model['file'], ''),
                                 ('file-noext', 'Mod', 'Shell'), ('file-dots', 'a.b/My.Model.dzn', 'X'),
